@@ -33,8 +33,11 @@ template<class V> V make_value(uint64_t id) {
         static std::remove_pointer_t<V> pool[1024];
         return &pool[id % 1024];
     } else {
-        // never the tombstone (max); id 999 maps to tombstone-1
-        if (id % 1000 == 999) return V(std::numeric_limits<V>::max() - 1);
+        // never the tombstone (max); id 999 maps to the largest value below it
+        if (id % 1000 == 999) {
+            if constexpr (std::is_floating_point_v<V>) return std::nextafter(std::numeric_limits<V>::max(), V(0));
+            else return V(std::numeric_limits<V>::max() - 1);
+        }
         return V(id % 1000);
     }
 }
